@@ -36,7 +36,11 @@ def decl_text(d):
     for v in d['variants']:
         if v['display']:
             o.append("    #[display('%s')]" % v['ch'])
-        if v['alts']:
+        if v['alts'] and d.get('altsplit'):
+            # the same helper attribute repeated: one #[alt] per alternative, hex / binary literals mixed in
+            for j, a in enumerate(v['alts']):
+                o.append('    #[alt(%s)]' % (hex(a) if j % 3 == 1 else bin(a) if j % 3 == 2 else str(a)))
+        elif v['alts']:
             o.append('    #[alt(%s)]' % ', '.join(str(a) for a in v['alts']))
         o.append('    %s = %s,' % (v['name'], v['lit']))
     o.append('}')
